@@ -34,6 +34,7 @@ def check_tree(ctx, case):
     sampled = False
     from mathy_core.expressions import MathExpression
 
+    fresh = dict(E.rule_instances())
     for name, rule in E.rules():
         before = snapshot(root)
         answers = []
@@ -46,6 +47,15 @@ def check_tree(ctx, case):
             if a1 != a2 or not isinstance(a1, bool):
                 return ctx.fail(("can_apply_to-unstable", name), case, {"tree": text, "node": E.text_of(n), "answers": [repr(a1), repr(a2)]})
             answers.append(a1)
+            # the answer depends on the tree only: a rule object that has seen other trees (the long-lived
+            # instance shared by this whole run, including this tree's ancestors in the pre-rewrites) must
+            # agree with a newly constructed one
+            try:
+                a3 = fresh[name].can_apply_to(n)
+            except Exception:
+                a3 = a1
+            if a3 != a1:
+                return ctx.fail(("can_apply_to-depends-on-history", name), case, {"tree": text, "node": E.text_of(n), "long_lived_instance": a1, "fresh_instance": a3})
         ctx.count("can_apply_calls", 2 * len(nodes))
         if snapshot(root) != before:
             return ctx.fail(("can_apply_to-mutates", name), case, {"tree": text})
